@@ -68,7 +68,10 @@ def _pkg(depth):
 def cases(draw):
     lib = draw(st.lists(_pkg(1), min_size=1, max_size=2)) if draw(st.integers(0, 19)) < 7 else None
     return {"packages": draw(st.lists(_pkg(2), min_size=1, max_size=2)), "layout": draw(layouts()),
-            "from_file": draw(st.booleans()), "lib": lib, "lib_layout": draw(layouts(max_size=6))}
+            "from_file": draw(st.booleans()), "lib": lib, "lib_layout": draw(layouts(max_size=6)),
+            # Package and Cls as user classes (their position attributes are set when a model's construction ends,
+            # which in a two-file load happens per model while the classes are still shared)
+            "userclasses": draw(st.sampled_from([False, False, True]))}
 
 
 def strategy(tier):
@@ -255,7 +258,14 @@ def evaluate(case):
                                              header='"lib.m"' if multi else "")
     all_refs = refs + (lib_refs or [])
     normalise(all_refs)
-    mm = metamodel_from_str(GRAMMAR, textx_tools_support=True)
+    classes = []
+    if case.get("userclasses"):
+        def init(self, **kw):
+            for k_, v_ in kw.items():
+                setattr(self, k_, v_)
+
+        classes = [type("Package", (object,), {"__init__": init}), type("Cls", (object,), {"__init__": init})]
+    mm = metamodel_from_str(GRAMMAR, textx_tools_support=True, classes=classes)
     inner = create_rrel_scope_provider("+m:packages*.classes")
     calls = {}
 
@@ -298,6 +308,8 @@ def evaluate(case):
         out.nontrivial = (qualified or postponed) and bool(shared or lib_shared)
         out.cls("qualified" if qualified else "plain_names", "postponed" if postponed else "no_postponement",
                 "two_files" if multi else ("file" if case["from_file"] else "string"))
+        if classes:
+            out.cls("user_classes" + ("/two_files" if multi else ""))
         out.sample = {"text": text, "lib": lib_text, "schedule": [(r["text"], r["k"]) for r in all_refs]}
         all_spans = {0: spans, 1: lib_spans}
         verify(out, ctx, model, text, refs, spans, shared, files, 0, all_spans, postponed)
